@@ -179,6 +179,16 @@ func c07fp(m *dnsmsg.Msg) uint64 {
 	return h.Sum64()
 }
 
+func c07ttls(m *dnsmsg.Msg) []uint32 {
+	var ttls []uint32
+	for _, rs := range [][]dnsmsg.Resource{m.Answers, m.Authorities, m.Additionals} {
+		for _, rr := range rs {
+			ttls = append(ttls, rr.Hdr().TTL)
+		}
+	}
+	return ttls
+}
+
 // ---- scripted upstream
 
 type c07upstream struct {
@@ -291,7 +301,8 @@ func c07histRun(cs string) string {
 	}
 	vr, up := sh.vr, sh.up
 
-	fps := map[uint64]string{} // fingerprint → response number
+	fps := map[uint64]string{}     // fingerprint → response number
+	ttlOf := map[uint64][]uint32{} // fingerprint → the TTLs of the response as first produced
 	lower := func(n []byte) []byte {
 		o := append([]byte(nil), n...)
 		dnsmsg.ToLowerName(o)
@@ -299,14 +310,29 @@ func c07histRun(cs string) string {
 	}
 	note := func(r int, name []byte, class, typ int, nx bool) {
 		bm := c07build(r, lower(name), class, typ, nx, c07minTTL)
-		fps[c07fp(bm)] = fmt.Sprint(r)
+		fp := c07fp(bm)
+		fps[fp] = fmt.Sprint(r)
+		ttlOf[fp] = c07ttls(bm)
 		dnsmsg.ReleaseMsg(bm)
 	}
+	// who: the number of the response a served message is a copy of — same octets once the ID and
+	// the TTLs are masked, and every TTL aged by at most a few seconds and never increased.
 	who := func(msg *dnsmsg.Msg) string {
-		if r, ok := fps[c07fp(msg)]; ok {
-			return r
+		fp := c07fp(msg)
+		r, ok := fps[fp]
+		if !ok {
+			return "?"
 		}
-		return "?"
+		got, orig := c07ttls(msg), ttlOf[fp]
+		if len(got) != len(orig) {
+			return "?"
+		}
+		for i := range got {
+			if got[i] > orig[i] || got[i]+30 < orig[i] {
+				return "?"
+			}
+		}
+		return r
 	}
 	var outs []string
 	for _, op := range strings.Split(m["ops"], ";") {
@@ -610,7 +636,11 @@ func c07stressGen(r *rand.Rand, thorough bool, emit func(c, cat string)) {
 	for i := 0; i < rounds; i++ {
 		for _, s := range sets {
 			for _, mode := range []string{"mem", "ctl"} {
-				emit(fmt.Sprintf("mode=%s g=%d n=%d keys=%d cap=%d seed=%d", mode, s.g, s.n, s.keys, s.cap, r.Intn(1<<30)), mode)
+				c := s.cap
+				if mode == "ctl" {
+					c *= 8 // entries are whole compressed messages; smaller capacities reject every Set
+				}
+				emit(fmt.Sprintf("mode=%s g=%d n=%d keys=%d cap=%d seed=%d", mode, s.g, s.n, s.keys, c, r.Intn(1<<30)), mode)
 			}
 		}
 	}
